@@ -5,11 +5,11 @@
    data reported for workload [p] in one direction.  A hypothetical pod is any [PPod hp hnsl] whose namespace labels carry the
    automatic name label of its namespace.
    [pmatch W ingress rl pr n]: the rule's ports match the point - for ingress with the rule's named ports resolved on the
-   workload (the full NetworkPolicy semantics); for egress the numbered ports of the rule.
-   PARTIAL for egress named ports: that an egress rule's named port appears (as a name) in the reported entry is proved for
-   soundness (C06) but not for completeness; the completeness probe and the model correspondence of checks/c07.py cover it. *)
+   workload (the full NetworkPolicy semantics); for egress the numbered ports of the rule.  The named ports of egress rules are
+   the second theorem: for a pod declaring nm -> (q, n), [name_covered c q nm n] says the entry's connection holds the number n
+   on protocol q or stores the name nm (which C06 reads as "that name as declared by the hypothetical pod"). *)
 From Coq Require Import List ZArith Bool String.
-From NP Require Import IntervalSet ConnSet ConnSetProofs World Eval Spec EvalProofs Build Connlist Exposure ExposureProofs.
+From NP Require Import IntervalSet ConnSet ConnSetProofs World Eval Spec EvalProofs Build Connlist Exposure ExposureProofs ExposureNames.
 Import ListNotations.
 Open Scope Z_scope.
 
@@ -32,6 +32,25 @@ Theorem C07_governing_rule_is_reported w reps0 keep p nsl ingress d np rl nss po
               rep_key_eqb (rep_of (np_ns np) (nss, pods)) r0 = true).
 Proof. exact (governing_rule_is_reported w reps0 keep p nsl ingress d np rl nss pods hp hnsl pr n). Qed.
 Print Assumptions C07_governing_rule_is_reported.
+
+(* the same for the named ports of egress rules *)
+Theorem C07_governing_rule_named_port_is_reported w reps0 keep p nsl d np rl nss pods hp hnsl q nm n :
+  forallb netpol_okb (w_nps w) = true -> pod_okb p = true ->
+  gen_reps (w_nps w) [] = Ok reps0 ->
+  dir_data w p nsl false (filter keep reps0) = Ok (Some d) ->
+  In np (w_nps w) -> s_np_governs np p Egress = true ->
+  In rl (np_eg np) -> In (NPSel nss pods) (nr_peers rl) ->
+  s_np_peer_matches (np_ns np) (NPSel nss pods) (PPod hp hnsl) = true ->
+  lookup K8sNsNameLabelKey hnsl = Some (p_ns hp) ->
+  named_rule_ports (nr_ports rl) q nm = true -> valid_port n = true ->
+  (exists e, In e (xd_entries d) /\
+             (xe_cluster e = true \/
+              (sel_matches_raw (xe_nssel e) hnsl = true /\ sel_matches_raw (xe_podsel e) (p_labels hp) = true)) /\
+             name_covered (xe_conn e) q nm n = true) \/
+  (exists r0, In r0 reps0 /\ keep r0 = false /\ satisfies hp hnsl r0 /\
+              rep_key_eqb (rep_of (np_ns np) (nss, pods)) r0 = true).
+Proof. exact (governing_rule_named_port_is_reported w reps0 keep p nsl d np rl nss pods hp hnsl q nm n). Qed.
+Print Assumptions C07_governing_rule_named_port_is_reported.
 
 (* the documented omission, exactly: a representative peer is dropped only if its selectors consist solely of label
    equalities (non-empty on the pod and on the namespace side) that an existing workload, in a matching namespace, satisfies *)
